@@ -1123,6 +1123,35 @@ class Gen:
             pre.append({"k": "apply", "op": op, "op_id": j, "targets": [str(self.ch(pols))], "via": "state"})
         return pre
 
+    def big_then_small_prefix(self, v):
+        """scripted prefix: one cutoff-dependent expression operation object (quadrature of a mode coupled to its
+        polarization) is applied first to the envelope whose mode holds MORE photons, then to one holding fewer: what the
+        object learned about dimensions in the first application must not leak into the second (C15)."""
+        w = v["w"]
+        seen = getattr(self, "ops_seen", None)
+        if seen is None:
+            seen = self.ops_seen = []
+        envs = []
+        for e in w.envs:
+            if e + ".f" in v["live"] and e + ".p" in v["live"]:
+                nm, _ = self.support(v, e + ".f")
+                if nm is not None and nm <= 5:
+                    envs.append((e, nm))
+        envs.sort(key=lambda t: -t[1])
+        if len(envs) < 2 or envs[0][1] == envs[-1][1]:
+            return []
+        big, small = envs[0][0], envs[-1][0]
+        units = list(w.envs) + [n for n in w.subs if w.kind(n) == "X"]
+        A = self.rng.standard_normal((2, 2)) + 1j * self.rng.standard_normal((2, 2))
+        op = {"fam": "comp", "type": "Expression", "state_types": ["F", "P"], "ladder": True,
+              "expr": ["expm", ["s_mult", {"num": [0.0, float(self.rng.uniform(0.3, 1.2))]}, ["kron", ["add", "a0", "ad0"], "g1"]]],
+              "context": {"a0": {"f": "destroy", "i": 0}, "ad0": {"f": "create", "i": 0}, "g1": {"f": "const", "m": c2j((A + A.conj().T) / 2)}}}
+        seen.append(op)
+        j = len(seen) - 1
+        return [{"k": "composite", "name": "CE0", "args": [str(u) for u in units]},
+                {"k": "apply", "op": op, "op_id": j, "targets": [big + ".f", big + ".p"], "via": "ce", "ce": "CE0"},
+                {"k": "apply", "op": op, "op_id": j, "targets": [small + ".f", small + ".p"], "via": "ce", "ce": "CE0"}]
+
     def same_kind_prefix(self, v):
         """scripted prefix: a three-operand expression operation over three subsystems of one kind (three modes or
         three polarizations) of which one already shares a product space with a bystander while the other two are
@@ -1184,6 +1213,8 @@ class Gen:
                            {"k": "composite", "name": f"CE{n + 2}", "args": [b, f"CE{n + 1}"]}]
         elif not runner.records and self.opts.get("lifecycle") and self.p(self.opts["lifecycle"]):
             self.prefix = self.lifecycle_prefix(v)
+        elif not runner.records and self.opts.get("big_small") and self.p(self.opts["big_small"]):
+            self.prefix = self.big_then_small_prefix(v)
         elif not runner.records and self.opts.get("refuse_first") and self.p(self.opts["refuse_first"]):
             self.prefix = self.refuse_first_prefix(v)
         elif not runner.records and self.opts.get("weak_prefix") and self.p(self.opts["weak_prefix"]):
